@@ -32,5 +32,6 @@ def main (args : List String) : IO UInt32 := do
   | ["net"] => stateLoop stdin stdout Oratio.Driver.NetD.step none; return 0
   | ["sweep"] => lineLoop stdin stdout Oratio.Driver.SweepD.step; return 0
   | ["exec"] => stateLoop stdin stdout Oratio.Driver.ExecD.step { now := 0, upt := 1 }; return 0
+  | ["evala"] => lineLoop stdin stdout Oratio.Driver.EvalD.step; return 0
   | ["types"] => stateLoop stdin stdout Oratio.Driver.TypesD.step {}; return 0
   | _ => IO.eprintln "usage: oratio_model <arith|...>"; return 2
